@@ -446,6 +446,11 @@ func (w *worker[T, JobType]) goRemoveIdleWorkers() {
 			}
 
 			nodes := w.pool.NodeSlice()
+			// the dispatcher may have popped idle nodes since the length was checked
+			if len(nodes) <= targetIdleWorkers {
+				continue
+			}
+
 			// If we have more nodes than our target, close the excess ones
 			for _, node := range nodes[targetIdleWorkers:] {
 				// Remove reports whether the node was still in the idle list: only then is it ours to retire.
